@@ -165,7 +165,7 @@ def check_property(pid, tier='quick', seed=0, out=sys.stdout, quiet_summary=Fals
                     if pid == 'C20' or pid in (c.props or it.props or getattr(unit, 'PROPERTIES', [])):
                         samples.append({'obligation': f'{R.name}:{it.name}.post.{c.label}', 'function': it.path, 'clause': c.text[:400]})
     # canaries (vacuity guard): each must FAIL
-    if os.environ.get('VERIF_NO_CANARY') != '1':
+    if os.environ.get('VERIF_NO_CANARY') != '1' and pid != 'C20':   # C20 re-uses the units of the other properties, whose own checks run the canaries
         for R in results:
             if R.status == 'undecided':
                 continue
